@@ -3,7 +3,7 @@
 PROP = dict(
     level="fault_enumeration",
     stages=[dict(name="c14_fs", src="harness/c14_fs.cc", deps=["harness/c14/io_plan.hh"],
-                 link=["-Wl,--wrap=read", "-Wl,--wrap=pread", "-Wl,--wrap=close"],
+                 link=["-Wl,--wrap=read", "-Wl,--wrap=pread", "-Wl,--wrap=close", "-Wl,--wrap=write"],
                  shards_quick=8, shards_thorough=16, timeout_quick=400, timeout_thorough=1500,
                  nondeterministic=True)],
     rule=("short-read plans are injected at read()/pread() through link-time interposition (--wrap) and at FILE* level through "
@@ -26,7 +26,16 @@ PROP = dict(
           "one stream or descriptor (fgets / freadx / fread / fgetcx, then read_all, then more): every call returns exactly the "
           "next bytes of the content, in particular read_all on a source that was already partly consumed through stdio returns the "
           "whole remainder; fopen/fmemopen/cookie/fdopen-pipe streams, default/unbuffered/7-byte/256-byte stdio buffers, sizes around "
-          "256, 4096, 8192, 16384 enumerated; non-trivial = two different helpers took bytes, or read_all ran on a used source."),
+          "256, 4096, 8192, 16384 enumerated; non-trivial = two different helpers took bytes, or read_all ran on a used source. "
+          "save_short_write: the write-side twin of the short-read plans (--wrap=write): write() on save_file's descriptor accepts only the "
+          "planned 1..k bytes per call and keeps accepting afterwards, or fails once (EINTR / EIO / ENOSPC, nothing accepted) at a chosen call; "
+          "oracle 'save_file throws, or the file holds exactly d (length and bytes) and load_file returns d', no throw when nothing was shortened; "
+          "every composition of every total <= 8 x the failing write at every call index, block-boundary sizes with the first write cut to 1, "
+          "size/2+1, size-1 bytes; non-trivial = a write was shortened or failed. Poll histories also contain two operations that are NOT Poll "
+          "calls: a registered descriptor is closed behind Poll's back (plain close()) and its number is re-used (dup2 of another base descriptor "
+          "onto it); the std::map model keeps such entries until remove() - empty() and the key set of poll() must agree with it (POLLNVAL while the "
+          "number is closed, the new object's readiness afterwards); every history of length 5 over 2 descriptors x {add POLLIN, add POLLOUT, remove, "
+          "close-behind, re-use} is enumerated (10^5), rapidcheck mixes them into 1/3 of its histories."),
     assumptions=["I/O errors are injected only as a read that fails with EINTR or EIO and consumes nothing (subcheck read_fault); the other "
                  "subchecks inject short counts only",
                  "read_all(FILE*) after a failed stream read: only 'no padding, nothing dropped' is asserted; that it returns the "
@@ -34,9 +43,12 @@ PROP = dict(
                  "text fed to fgets contains no NUL byte (::fgets cannot represent it)",
                  "the process runs as root on a filesystem that accepts every byte except '/' and NUL in names (ext4)",
                  "load_file under a short-read plan may throw (it must not return a truncated string)",
+                 "save_file under a short or failed write() may throw (it must not return normally with a file that differs from d)",
+                 "Poll::remove(fd, true) is not applied to a number that was closed behind Poll's back (it is run as a plain remove): what "
+                 "closing a closed descriptor does is not part of the map contract",
                  "an exact-size reader (readx/preadx) may throw io_error whenever a single read() delivers fewer bytes than requested"],
     min_evaluations_quick=100000,
-    technique=("fault enumeration + property-based testing: link-time interposition of read/pread/close (-Wl,--wrap) and fopencookie "
+    technique=("fault enumeration + property-based testing: link-time interposition of read/pread/write/close (-Wl,--wrap) and fopencookie "
                "streams turn the chunking of a byte stream into a generated input; exhaustive small-scope plans + rapidcheck, real "
                "pipes with staggered writer threads; model-based checks (set of created names, tree snapshot, descriptor-ownership "
                "model with a close() log, std::map model of Poll with an independent ::poll readiness oracle)"),
@@ -44,7 +56,8 @@ PROP = dict(
                 "enumerated for each reader, block-boundary sizes and all line lengths 0..1100 are enumerated, larger contents and "
                 "kernel-produced short reads (real pipes) are sampled. It finds any reader that treats a short count as end of data "
                 "inside those scopes. A second fault, a read that fails with EINTR/EIO at the k-th call, is enumerated for every "
-                "composition of totals <= 6 and every k; real signals are not delivered."),
+                "composition of totals <= 6 and every k; real signals are not delivered. The write-side fault (a write() that accepts "
+                "fewer bytes than requested, or fails once) is enumerated for save_file over every composition of totals <= 8."),
     level_note="Trusts glibc's fopencookie/fmemopen contract, the kernel's pipe semantics and /proc/self/fd.",
     engine="rapidcheck + exhaustive enumerators + ld --wrap interposition",
 )
